@@ -116,6 +116,13 @@ def accumulated_distances_rule(ctx, rule: str):
                     dt is tm.glob("builtins.float") or
                     (dt.op == "global" and dt.args[0] in (
                         "numpy.float64", "numpy.double", "numpy.float_"))))
+            if not float_dt and dt is not None and is_call_to(
+                    dt, "numpy.result_type", "numpy.promote_types") and any(
+                    z is tm.glob("builtins.float") or (
+                        z.op == "global" and z.args[0] in (
+                            "numpy.float64", "numpy.double"))
+                    for z in dt.args[1]):
+                float_dt = True       # at least float64, whatever the input
             if float_dt:
                 verdict = bool(sc)
             elif dt is not None and any(y is x for y in dt.walk()) or \
@@ -697,6 +704,83 @@ def _crop(ctx, prog):
                 "not found")
     ids = (red[0].data["bound"] or {}).get("ids")
     ok, lo, hi = False, None, None
+    # a binary-search fast path next to the mask (ascending stamps, the mask
+    # kept as fall-back), bounds defaulting inside the index expressions:
+    # judged per world of (start given?, end given?)
+    if ids is not None and any(
+            is_call_to(x, "numpy.searchsorted", ".searchsorted")
+            for x in ids.walk()) and any(x.op == "ite" for x in ids.walk()):
+        import itertools as _it
+        n_s, n_e = T("cmp", "Is", sp, tm.NONE), T("cmp", "Is", ep, tm.NONE)
+        nn_s, nn_e = T("cmp", "IsNot", sp, tm.NONE), \
+            T("cmp", "IsNot", ep, tm.NONE)
+        verdicts, rest = [], []
+        for ws, we in _it.product((True, False), repeat=2):
+            def world(a, ws=ws, we=we):
+                if a is n_s:
+                    return ws
+                if a is nn_s:
+                    return not ws
+                if a is n_e:
+                    return we
+                if a is nn_e:
+                    return not we
+                return None
+            idw = tm.deep_select(ids, world)
+            for alt in tm.strip_ite(idw):
+                if not is_call_to(alt, "numpy.arange", "builtins.range") or \
+                        len(alt.args[1]) != 2:
+                    continue
+                lo_, hi_ = alt.args[1]
+                full = (tm.attr(ts, "size"), tm.attr(SELF, "num_poses"),
+                        tm.call(tm.glob("builtins.len"), (ts,), ()),
+                        tm.sub(tm.attr(ts, "shape"), const(0)))
+                if ws and tm.is_const(lo_, 0):
+                    lo_ = tm.call(tm.glob("numpy.searchsorted"),
+                                  (ts, tm.sub(ts, const(0))),
+                                  (("side", const("left")),))
+                if we and any(hi_ is f_ for f_ in full):
+                    hi_ = tm.call(tm.glob("numpy.searchsorted"),
+                                  (ts, tm.sub(ts, const(-1))),
+                                  (("side", const("right")),))
+                ss_ = _sorted_search_crop(
+                    tm.call(alt.args[0], (lo_, hi_), ()), ts)
+                if ss_ is None:
+                    verdicts.append((None, f"range {fmt(alt)[:80]}"))
+                    continue
+                l_, h_, ok_, why_ = ss_
+                want_l = tm.sub(ts, const(0)) if ws else sp
+                want_h = tm.sub(ts, const(-1)) if we else ep
+                l_ = tm.deep_select(l_, world)
+                h_ = tm.deep_select(h_, world)
+                if not ok_:
+                    verdicts.append((False, why_))
+                elif l_ is not want_l or h_ is not want_h:
+                    verdicts.append((False, f"bounds searched are "
+                                            f"{fmt(l_)} / {fmt(h_)}"))
+                else:
+                    verdicts.append((True, ""))
+        bad_ = [w_ for v_, w_ in verdicts if v_ is False]
+        unk_ = [w_ for v_, w_ in verdicts if v_ is None]
+        if bad_:
+            ctx.ob("C11.3", red[0], False,
+                   f"time crop by sorted search is not inclusive on both "
+                   f"ends: {bad_[0]}", key="C11.3:mask", ids=fmt(ids))
+        elif unk_:
+            ctx.undecidable("C11.3", red[0], f"time crop fast path: {unk_[0]}")
+        elif verdicts:
+            ctx.ob("C11.3", red[0], True,
+                   "time crop fast path keeps exactly start <= t <= end: "
+                   "index range [searchsorted(t, start), searchsorted(t, "
+                   "end, 'right')) of the ascending timestamps, in every "
+                   "world of given / defaulted bounds", key="C11.3:fast-path")
+        rest = [a_ for a_ in tm.strip_ite(ids) if not (
+            is_call_to(a_, "numpy.arange", "builtins.range") and
+            len(a_.args[1]) == 2)]
+        if len(rest) == 1:
+            ids = rest[0]            # the fall-back is judged below
+        elif not rest and verdicts and not unk_:
+            return
     ss = _sorted_search_crop(ids, ts)
     if ss is not None:
         lo, hi, oks, why = ss
